@@ -47,6 +47,14 @@ def callee_id(c):
         name = "%s::%s" % (c["trait"], c["name"])
     else:
         name = strip_paths(c["path"])
+        if "::" not in name:
+            if c.get("impl_self"):
+                # inherent method of a non-generic type: keep the type name
+                ty = c["impl_self"].split("<")[0]
+                name = "%s::%s" % (ty, name)
+            else:
+                # free function of a dependency: crate::name (re-export independent)
+                name = "%s::%s" % (c.get("crate", "?"), name)
     return (name, tuple(c.get("args", ())))
 
 
